@@ -29,7 +29,8 @@ RULE += (
     "every task's first argument prints with per-cent signs (names and dumps are built from repr() of the "
     "arguments). In one program in three tasks call profiler.flush() after each synchronous call they make. "
     "Task styles partial (functools.partial over a generator function) and callable (instance with __call__) "
-    "occur in the programs."
+    "occur in the programs. In one program in ten the tasks' first argument is nested deeper than the "
+    "recursion limit (repr() raises RecursionError)."
 )
 ASSUMPTIONS = [
     "programs whose default-option trace is not reproducible (priority ties) are skipped and counted",
